@@ -19,6 +19,7 @@ CONSTANTS
  Goals = {2}
  Origins = {o}
  AdvKinds = {"mangle"}
+ NodeRank <- RankDef
  AdvSrcs = {adv}
  TrackWire = FALSE
  UseIds = FALSE
